@@ -14,6 +14,9 @@ vars == <<cfg, piece, cuts, nc, phase, ci, ei, evs, carry, acc, toks, ti, d, inf
 (* chunk boundaries: 0, the chosen interior bar lines, the end of the last bar *)
 Lines == ExpectedBarLines(cfg, piece)
 Bounds == <<0>> \o SelectSeq(Lines, LAMBDA b : b \in cuts \/ b = Lines[Len(Lines)])
+(* two ways of cutting a piece into chunks of whole bars: as Bar objects (every bar restarts with its signature event)
+   or by plain splitting at the chosen bar lines (only the piece's own signature events; marker -2 in `cuts`) *)
+PlainSplit == -2 \in cuts
 NChunks == Len(Bounds) - 1
 (* events of chunk k, times relative to its start; like bars, every bar inside the chunk starts with a signature
    event and the chunk is capped at its full length; a single call over the whole piece sees the piece as it is *)
@@ -23,7 +26,10 @@ ChunkEvents(k) ==
     LET lo == Bounds[k] hi == Bounds[k + 1]
         base == SelectSeq(PieceEvents(piece), LAMBDA e : e.kind = "note" /\ lo <= e.t /\ e.t < hi)
         starts == {lo} \cup {b \in RangeOf(Lines) : lo < b /\ b < hi}
-        sigs == {[t |-> b, kind |-> "ts", trk |-> 0, pit |-> -1, val |-> -1, vel |-> -1, n |-> SigAt(b)[1], d |-> SigAt(b)[2]] : b \in starts}
+        own == {[t |-> piece.sigs[j][1], kind |-> "ts", trk |-> 0, pit |-> -1, val |-> -1, vel |-> -1,
+                 n |-> piece.sigs[j][2], d |-> piece.sigs[j][3]] : j \in {q \in DOMAIN piece.sigs : lo <= piece.sigs[q][1] /\ piece.sigs[q][1] < hi}}
+        sigs == IF PlainSplit THEN own
+                ELSE {[t |-> b, kind |-> "ts", trk |-> 0, pit |-> -1, val |-> -1, vel |-> -1, n |-> SigAt(b)[1], d |-> SigAt(b)[2]] : b \in starts}
         cap == {[t |-> hi, kind |-> "cap", trk |-> 0, pit |-> -1, val |-> -1, vel |-> -1, n |-> -1, d |-> -1]}
         rank(e) == IF e.kind = "ts" THEN 0 ELSE IF e.kind = "note" THEN 1 ELSE 2
         all == SortSeq(SetToSeq(RangeOf(base) \cup sigs \cup cap),
@@ -37,7 +43,7 @@ NCalls == IF WholePiece THEN 1 ELSE NChunks
 
 Init == /\ cfg \in Configs
         /\ piece \in PiecesOf(cfg)
-        /\ cuts \in {{-1}} \cup SUBSET (RangeOf(ExpectedBarLines(cfg, piece)) \ {EndOfLastBar(cfg, piece)})
+        /\ cuts \in {{-1}} \cup SUBSET ((RangeOf(ExpectedBarLines(cfg, piece)) \ {EndOfLastBar(cfg, piece)}) \cup {-2})
         /\ (cuts # {-1} => piece.bars)          \* bar-by-bar calls need a piece made of whole bars
         /\ nc = NCalls
         /\ phase = "idle" /\ ci = 1 /\ ei = 1 /\ evs = <<>> /\ carry = FreshCarry(cfg) /\ acc = [st |-> FreshCarry(cfg), out |-> <<>>, ok |-> TRUE]
